@@ -39,6 +39,8 @@ class Rerun(Unit):
             "an accepted rerun sets the workflow to resuming, resets the output and records one rerun entry"},
         "C17.rerun.exact": {"props": ["C17", "C18"], "text":
             "exactly the requested executions (default: abended terminal ones) get a fresh record and one ready staged entry; earlier records are only appended to; executions on other routes keep their terminal flag and everything else"},
+        "C17.rerun.downstream_reopened": {"props": ["C17"], "text":
+            "the executions that followed a rerun execution on the same route are no longer terminal (their old contexts must not reach the output of the rerun), and the rerun execution's old record is no longer terminal either"},
         "C17.rerun.items": {"props": ["C17", "C03", "C12"], "text":
             "a with-items candidate keeps its record and staged entry; its abended items (all items with reset_items) become unset, the others are untouched"},
         "C17.rerun.not_stuck": {"props": ["C17", "C03"], "text":
@@ -183,6 +185,11 @@ class Rerun(Unit):
                 if seq[i] is not (seq[i]):
                     frame = False
             ctx.oblige("C17.rerun.exact", z3.And(z3.BoolVal(ok), zb(frame)), None, info)
+            reopened = True
+            for i, r0 in enumerate(snap_seq):
+                if (r0["id"], r0["route"]) in (set(cand) | downstream):
+                    reopened = reopened and "term" not in seq[i]
+            ctx.oblige("C17.rerun.downstream_reopened", reopened, None, info)
             # separation
             sep = True
             for r in new_recs:
